@@ -140,6 +140,16 @@ def normalize : List Str → List Str → List Str
     as components -/
 def xvcPathNew (cwd : List Str) (p : Str) : List Str := normalize cwd.reverse (splitSlash p)
 
+/-- destination of `xvc file copy` / `xvc file move` (after C18-K9b.patch): a file destination and
+    a directory destination (trailing `/`, stripped before the call) are both
+    `XvcPath::new(root, current_dir, destination)` -/
+def destPath (cwd : List Str) (dest : Str) : List Str :=
+  xvcPathNew cwd (if endsWithSlash dest then dest.dropLast else dest)
+
+/-- the same BEFORE C18-K9b.patch: a directory destination was resolved against the ROOT -/
+def destPathOld (cwd : List Str) (dest : Str) : List Str :=
+  if endsWithSlash dest then xvcPathNew [] dest.dropLast else xvcPathNew cwd dest
+
 /-! ## a small glob matcher (`fast_glob` on the pattern shapes xvc builds and the harness generates) -/
 
 /-- the rest of a path after its first `/` -/
